@@ -5,8 +5,8 @@ CONSTANTS
   MaxReq2 = 1
   Protos <- AllProtos
   TlsModes <- BothBool
-  MakeModes <- OnlyFalse
-  MaxFaults = 1
+  MakeModes <- BothBool
+  MaxFaults = 0
   AsBuiltD8 = FALSE
   GenMode = FALSE
   GenLen = 0
